@@ -15,7 +15,14 @@
 //!  3. the strace-recorded write/fsync/rename history of a successful pull is fed
 //!     to a small crash model (module `c10_os`): every prefix × every subset of
 //!     un-synced writes dropped must leave the destination old or complete.
+//!  4. SLOW / GATED CONSUMERS (module `c10_gate`): the caller-supplied digest, verifier or
+//!     consume closure parks on a harness gate while the pull loop fails (AsyncClient and
+//!     WebSocketClient in process over `memstream`, blocking `Client` over loopback TCP);
+//!     the directory is sampled at the moment the pull function returns, after the gate was
+//!     opened and after every consumer thread was joined; a retry to the same destination.
 
+#[path = "c10_gate.rs"]
+mod gate;
 #[path = "c10_os.rs"]
 mod os;
 #[path = "c10_srv.rs"]
@@ -1062,12 +1069,23 @@ pub fn run(tier: Tier) -> ! {
     let prev_hook = std::panic::take_hook();
     std::panic::set_hook(Box::new(|_| {}));
 
+    // development / mutant triage only: VERIF_C10_PARTS=1,23,gate restricts the parts that run
+    // (the evidence then says `exhaustive: false`)
+    let parts = std::env::var("VERIF_C10_PARTS").ok();
+    let on = |p: &str| parts.as_deref().map(|s| s.split(',').any(|x| x.trim() == p)).unwrap_or(true);
+    let all_parts = on("1") && on("23") && on("gate");
+    let samples_gate = Samples::new(6);
     let t0 = std::time::Instant::now();
-    let (p1, p1cov) = run_part1(&ctx, tier, &samples);
+    let (p1, p1cov) = if on("1") { run_part1(&ctx, tier, &samples) } else { (P1Stats::default(), json!({"skipped": true})) };
     let t1 = t0.elapsed().as_secs_f64();
-    let p23 = os::run_parts_2_3(&ctx, tier, &samples_os);
+    let p23 = if on("23") { os::run_parts_2_3(&ctx, tier, &samples_os) } else { os::P23::default() };
     let t2 = t0.elapsed().as_secs_f64() - t1;
-    eprintln!("[C10] part 1: {} cases in {t1:.1}s; parts 2+3: {} child runs, {} crash states in {t2:.1}s", p1.cases, p23.kill_runs, p23.crash_states);
+    let (p4, p4cov) = if on("gate") { gate::run_gate(&ctx, tier, &samples_gate) } else { (gate::GStats::default(), json!({"skipped": true})) };
+    let t3 = t0.elapsed().as_secs_f64() - t1 - t2;
+    eprintln!(
+        "[C10] part 1: {} cases in {t1:.1}s; parts 2+3: {} child runs, {} crash states in {t2:.1}s; part 4 (gated consumers): {} rows / {} pulls in {t3:.1}s ({} wave(s), up to {} concurrent)",
+        p1.cases, p23.kill_runs, p23.crash_states, p4.rows, p4.pulls, p4.waves, p4.max_concurrent
+    );
 
     std::panic::set_hook(prev_hook);
 
@@ -1078,13 +1096,38 @@ pub fn run(tier: Tier) -> ! {
             ctx.note(format!("{} remark(s) outside the property, first: {first}", r.len()));
         }
     }
+    {
+        let mut r = p4.remarks.clone();
+        r.sort();
+        if let Some(first) = r.first() {
+            ctx.note(format!("part 4: {} remark(s) outside the property, first: {first}", r.len()));
+        }
+        if p4.returned_while_parked > 0 {
+            ctx.note(format!("part 4: {} pull(s) returned while their consumer was still parked on the gate", p4.returned_while_parked));
+        }
+    }
     if !p1.setup_errors.is_empty() {
         ctx.machinery(format!("part 1 harness setup failed: {}", p1.setup_errors[0]));
+    }
+    if !p4.machinery.is_empty() && !ctx.has_violation() {
+        ctx.machinery(format!("part 4: {} harness problem(s), first: {}", p4.machinery.len(), p4.machinery[0]));
     }
     if !p1.hangs.is_empty() && !ctx.has_violation() {
         ctx.machinery(format!("part 1: pull hung (watchdog) in {} case(s), first {}", p1.hangs.len(), p1.hangs[0]));
     }
-    if !ctx.has_violation() {
+    if !ctx.has_violation() && on("gate") {
+        if !p4.expected_ok_failed.is_empty() {
+            ctx.machinery(format!(
+                "vacuity: {} healthy gated pull(s) did not succeed, first: {}",
+                p4.expected_ok_failed.len(),
+                p4.expected_ok_failed[0]
+            ));
+        }
+        if let Some(msg) = p4.vacuity() {
+            ctx.machinery(format!("vacuity in part 4: {msg}: {p4cov}"));
+        }
+    }
+    if !ctx.has_violation() && on("1") {
         if !p1.expected_ok_failed.is_empty() {
             ctx.machinery(format!(
                 "vacuity: {} fault-free pull(s) did not succeed, first: {}",
@@ -1103,21 +1146,24 @@ pub fn run(tier: Tier) -> ! {
         {
             ctx.machinery(format!("vacuity in part 1: {p1cov}"));
         }
+    }
+    if !ctx.has_violation() && on("23") {
         if let Some(msg) = p23.vacuity() {
             ctx.machinery(format!("vacuity in parts 2/3: {msg}"));
         }
     }
     let mut all_samples = samples.take();
     all_samples.extend(samples_os.take());
+    all_samples.extend(samples_gate.take());
     all_samples.sort_by_key(|v| v.to_string());
-    let evaluations = p1.cases + p23.kill_runs + p23.crash_states;
-    let distinct = p1.nontrivial.len() as u64 + p23.distinct_kill_points + p23.distinct_crash_classes;
-    let exhaustive = p23.exhaustive;
+    let evaluations = p1.cases + p23.kill_runs + p23.crash_states + p4.pulls;
+    let distinct = p1.nontrivial.len() as u64 + p23.distinct_kill_points + p23.distinct_crash_classes + p4.nontrivial.len() as u64;
+    let exhaustive = p23.exhaustive && all_parts;
     let cov = json!({
         "evaluations": evaluations,
         "distinct_nontrivial": distinct,
         "exhaustive": exhaustive,
-        "rule": "part1: every (puller x compression x n x trailer x verifier) configuration is first run fault-free to MEASURE its response count R and wire stream; then every producer-failure byte position 0..=n, cut after response k and cut on request k for k=1..=R, scripted error on the k-th next, error to open, last-never-sent-then-EOF, x destination {absent, pre-existing}; plus rename-onto-non-empty-directory and missing-parent rows. part2: per (file puller x compression x destination) a strace dry run measures the syscall history on the temp/destination paths (-P) and the socket receives; one child run per (syscall name, k) for every k up to the measured count with inject=<name>:signal=SIGKILL:when=k. part3: every prefix of the recorded history x every subset of writes not yet covered by fsync/fdatasync dropped, through a rename-atomic file-system model.",
+        "rule": "part1: every (puller x compression x n x trailer x verifier) configuration is first run fault-free to MEASURE its response count R and wire stream; then every producer-failure byte position 0..=n, cut after response k and cut on request k for k=1..=R, scripted error on the k-th next, error to open, last-never-sent-then-EOF, x destination {absent, pre-existing}; plus rename-onto-non-empty-directory and missing-parent rows. part2: per (file puller x compression x destination) a strace dry run measures the syscall history on the temp/destination paths (-P) and the socket receives; one child run per (syscall name, k) for every k up to the measured count with inject=<name>:signal=SIGKILL:when=k. part3: every prefix of the recorded history x every subset of writes not yet covered by fsync/fdatasync dropped, through a rename-atomic file-system model. part4 (slow / gated consumers): per (client x puller x compression x stream shape) an ungated fault-free run MEASURES the wire chunks and how often the caller-supplied digest / consume closure is called; every fault (producer failure, cut after response k, error on the k-th next; at most 4 chunks delivered before it) is first run ungated to measure the hook calls U made before the failure; then the hook parks on a harness gate at its call k in {first, middle, last of U} (thorough: every k), the harness waits until the consumer is parked AND the failure was applied, keeps the gate closed for hold_ms of real time (all in-memory scenarios run concurrently, one controller thread + one pull thread with a private runtime each), samples the directory at the moment the pull function returns, >= 300 ms after the gate opened, when every consumer has dropped its state and after the runtime (with its blocking threads) was joined; x destination {absent, pre-existing} x {no retry, retry of the now healthy resource (new content, same destination) started the moment the failed pull returned, the same with the retry's own digest parked at its last call until the earlier consumer finished}; a gated verifier (accepting / rejecting) sampled when it parked and at the end of the hold; pull_consume[_async] closures parked mid-read; healthy streams of more chunks than the pull loop buffers with the consumer parked at its first call for the whole hold; blocking Client pullers with the connection cut by the harness while the inline consumer is parked.",
         "bound": {
             "chunk_bytes": tier.pick(json!([4]), json!([3,4,8])),
             "n": tier.pick("{0,1,c,2c+1,3c+1}", "0..=3c+1"),
@@ -1126,16 +1172,27 @@ pub fn run(tier: Tier) -> ! {
             "session_depth": 2,
             "child_process_stream_shapes_n_chunk": tier.pick(json!([[0,4],[9,4]]), json!([[0,4],[1,4],[5,4],[8,4],[9,4],[13,4],[10,3],[20000,8192]])),
             "crash_model_unsynced_write_cap": 14,
+            "gated_consumer_stream_shapes_n_trailer": tier.pick(json!([[21,3]]), json!([[21,3],[21,1],[14,3]])),
+            "gated_consumer_healthy_stream_shapes_n_trailer": tier.pick(json!([[33,3],[17,3]]), json!([[33,3],[61,5],[17,3],[9,3]])),
+            "gated_consumer_piece_bytes": 4,
+            "gated_consumer_chunk_bytes": {"none": 4, "zstd": 8},
+            "gated_consumer_gate_positions": tier.pick("{first, middle, last} of the measured hook calls", "every measured hook call"),
+            "gated_consumer_chunks_delivered_before_the_failure": tier.pick("min(4, chunks-1)", "1..=min(4, chunks-1)"),
+            "gated_consumer_hold_ms": gate::hold().as_millis() as u64,
         },
         "alphabet": {
             "pullers": ALL_PULLERS.iter().map(|p| p.name()).collect::<Vec<_>>(),
             "compression": ["none", "zstd"],
             "destination": ["absent", "existing", "non-empty directory", "parent missing"],
+            "clients_part4": ["AsyncClient (in memory)", "WebSocketClient (in memory)", "Client (loopback TCP)"],
+            "pullers_part4": ["pull_to_file_verified_async", "pull_to_file_trailer_verified_async", "pull_consume_async", "pull_to_file_trailer_verified", "pull_consume"],
+            "consumer_gates_part4": ["digest parks at call k", "consume closure parks after read k", "verifier parks (then accepts / rejects)", "retry's digest parks at its last call"],
             "faults": ["producer-fail@p", "cut-after-response@k", "cut-on-request@k", "next-error@k", "open-error", "no-last-then-eof", "verifier rejects", "payload tampered", "trailer tampered", "trailer>stream", "trailer==stream", "SIGKILL@fs-syscall k", "SIGKILL@recv k", "crash@prefix x dropped-unsynced-writes"],
         },
         "nonvacuity": {
             "part1": p1cov,
             "part2_3": p23.coverage(),
+            "part4_gated_consumers": p4cov,
         },
         "samples": all_samples,
     });
@@ -1144,7 +1201,8 @@ pub fn run(tier: Tier) -> ! {
         cov,
         &[
             "the producer is the real SVS engine behind a harness TCP front; transport faults are applied at frame granularity (a cut never splits a response frame)",
-            "async pullers are driven over AsyncClient on a current-thread runtime; WebSocketClient shares run_pull and is not driven separately",
+            "parts 1-3 drive the async pullers over AsyncClient on a current-thread runtime; part 4 drives AsyncClient and WebSocketClient in process over the repe_verif in-memory stream seam (a cut is the peer end dropped without a closing handshake)",
+            "part 4: the hold is real time (hold_ms); a pull that has not returned while its consumer is parked is not judged (the unchanged code returns once the gate opens); the retry serves new content of the same length under the same resource name; a healthy retry whose stream was delivered completely must publish",
             "kill points are syscall ENTRIES (the killed syscall is not executed); a kill inside a partially executed write is represented by part 3's dropped/kept un-synced writes at write granularity",
             "the crash model is POSIX: rename is atomic, fsync/fdatasync makes all earlier writes of that file durable, un-synced writes may be lost independently; durability of the rename itself (directory fsync) is not demanded by the property",
             "value pullers: Ok is accepted when every wire byte of the stream was delivered and the value equals the producer's (the sync decoder stops at the end of the value without waiting for `last`)",
@@ -1168,6 +1226,7 @@ pub fn replay(case: &Value) -> Result<(), String> {
             }
         }
         Some(2) | Some(3) => os::replay(case),
+        _ if case["part"].as_str() == Some("gate") => gate::replay(case),
         _ => Err("unknown C10 case".into()),
     }
 }
